@@ -29,7 +29,7 @@ def r08_4(ctx, run, rule='R08.4'):
     for fn in ('convert_index', 'convert_slice'):
         b = f.bodies.get(SEL + fn)
         if b is None:
-            run.violation(rule, SEL + fn, 'body', 'function not found (anchor lost)')
+            run.undecided(rule, SEL + fn, 'body', 'function not found (anchor lost)')
             continue
         ps, _ = explore(b)
         length = ('init', b.argc, b.name_of(b.argc))
@@ -79,7 +79,7 @@ def r08_5(ctx, run, rule='R08.5'):
     f = ctx.facts
     b = f.bodies.get(SEL + 'compare_value')
     if b is None:
-        run.violation(rule, SEL + 'compare_value', 'table', 'function not found (anchor lost)')
+        run.undecided(rule, SEL + 'compare_value', 'table', 'function not found (anchor lost)')
         return
     ops = [v['name'] for v in f.adts['jsonpath::path::BinaryOperator']['variants']]
     ps, _ = explore(b)
@@ -141,7 +141,7 @@ def r08_5(ctx, run, rule='R08.5'):
     # connectives
     b = f.bodies.get(SEL + 'filter_expr')
     if b is None:
-        run.violation(rule, SEL + 'filter_expr', 'connectives', 'function not found (anchor lost)')
+        run.undecided(rule, SEL + 'filter_expr', 'connectives', 'function not found (anchor lost)')
         return
     ps, _ = explore(b)
     conn = {}
@@ -226,7 +226,7 @@ def r08_7(ctx, run, rule='R08.7'):
     f = ctx.facts
     b = f.bodies.get(SEL + 'compare')
     if b is None:
-        run.violation(rule, SEL + 'compare', 'shapes', 'function not found (anchor lost)')
+        run.undecided(rule, SEL + 'compare', 'shapes', 'function not found (anchor lost)')
         return
     loops = natural_loops(b)
     ex = Explorer(b, max_paths=3000)
